@@ -248,6 +248,14 @@ def _run(ck, P, cfg):
                     tgt = X.strip(here[0].children[1])
                     if (d == "down" and X.is_zero(tgt)) or (d == "up" and _is_thread_count(f, tgt)):
                         good = "continues while %s != %s, which this branch sets to %s" % (dst.name, r.name, X.show(tgt))
+        if not good and kind == "var" and core is not None and core.k == "BinaryOperator" and d == "up":
+            rr = X.strip(core.children[1]) if X.strip(core.children[0]).k == "DeclRefExpr" and X.strip(core.children[0]).did == dst.did else X.strip(core.children[0])
+            if rr.k == "DeclRefExpr" and rr.d.get("sc") in ("static_local", "file_static", "global", "extern"):
+                copies = [x for x in f.walk() if x.k == "BinaryOperator" and x.op == "=" and X.strip(x.children[0]).k == "DeclRefExpr" and X.strip(x.children[0]).name == rr.name and _is_thread_count(f, x.children[1])]
+                if copies:
+                    ck.violated("C17.6", inst, lp.where, "the up-count waits for `%s`, a copy of the thread count kept in static storage (set at %s): the count of THIS use is not read, so a later "
+                                "group of threads of another size is released early or never; the copy is also written by every thread without synchronisation" % (rr.name, copies[0].where), cfg)
+                    continue
         if good:
             n_ok += 1
             ck.holds("C17.6", inst, lp.where, "reloads with %s each iteration; %s" % (loads[0].aop.replace("__c11_atomic_", "atomic_"), good), cfg)
